@@ -534,11 +534,11 @@ theorem ite_mid {α β γ : Type} (c : Prop) [Decidable c] (a b : α) (x : β) (
 theorem snapshot_fold (n : Node) (opId : Nat) (names : List Bytes) (m : Meta) (acc : Option Meta) (b : Bool) :
     ((names.foldl (fun (acc : Option Meta × Bool) name =>
             match acc.2, (n.db? name).map (·.id) with
-            | true, some d => (some ((acc.1.getD m).writeOp { t := opId, k := 2, d := d, o := 3 }), true)
+            | true, some d => (some ((acc.1.getD m).writeOp { t := opId, k := 18446744073709551614, d := d, o := 3 }), true)
             | true, none => (acc.1, false)
-            | false, some d => (some ((acc.1.getD m).writeOp { t := opId, k := 2, d := d, o := 3 }), false)
+            | false, some d => (some ((acc.1.getD m).writeOp { t := opId, k := 18446744073709551614, d := d, o := 3 }), false)
             | false, none => (acc.1, false)) (acc, b)).1.getD m) =
-      runM (acc.getD m) (names.filterMap fun name => ((n.db? name).map (·.id)).map fun d => MOp.log { t := opId, k := 2, d := d, o := 3 }) := by
+      runM (acc.getD m) (names.filterMap fun name => ((n.db? name).map (·.id)).map fun d => MOp.log { t := opId, k := 18446744073709551614, d := d, o := 3 }) := by
   induction names generalizing acc b with
   | nil => simp [runM]
   | cons name rest ih =>
